@@ -213,6 +213,16 @@ impl Controller {
         self.await_event(tid)
     }
 
+    /// let `tid` run WITHOUT waiting for its next event (C16: the caller then polls `poll_event` and the OS state of
+    /// the thread, to tell a thread that blocks on a mutex held by a stopped thread from one that is still running)
+    pub fn grant(&self, tid: usize) {
+        let mut s = self.slots[tid].lock().unwrap();
+        assert!(s.job.is_some() || s.at_pause, "thread {tid} has nothing to run");
+        s.event = None;
+        s.granted = true;
+        self.cvs[tid].notify_all();
+    }
+
     /// wait for the next event of a thread that is running or was put to sleep by redb
     pub fn await_event(&self, tid: usize) -> Event {
         let mut s = self.slots[tid].lock().unwrap();
